@@ -9,3 +9,5 @@ import SJ.Props.C14
 #print axioms SJ.Props.C14.c14_no_fuel_roundtrip
 #print axioms SJ.Props.C14.c14_no_fuel_machine
 #print axioms SJ.Props.C14.c14_no_fuel_literal
+#print axioms SJ.Props.C14.c14_stream_depth_restored
+#print axioms SJ.Props.C14.c14_stream_item_budget
